@@ -11,7 +11,7 @@ fn emit_nodes(
 fn fix_divert_paths(value: &mut Value, old_path: &str, new_path: &str) {
     match value {
         Value::Object(map) => {
-            for field in ["->", "x->", "*", "^->", "CNT?"] {
+            for field in ["->", "x->", "*", "^->", "CNT?", "->t->", "f()"] {
                 if let Some(v) = map.get_mut(field)
                     && let Some(path) = v.as_str()
                 {
